@@ -51,7 +51,7 @@ type concurrentBlocks interface {
 // run is then a harness error (inconclusive), never counted as coverage.
 // (no entry for "avxoff": AVX off with AVX2 on is not a real CPU; the batch width the
 // library announces there is not asserted, only that all results are right)
-var wantConc = map[string]int{"default": 8, "aesni1": 8, "noavx2": 4, "noavx": 4, "noaes": 0, "purego": 0}
+var wantConc = map[string]int{"default": 8, "aesni1": 8, "noclmul": 8, "noavx2": 4, "noavx": 4, "noaes": 0, "purego": 0}
 
 var dispatchOnce sync.Once
 
@@ -252,6 +252,8 @@ func prefill(dst, want []byte) {
 //	misaligned      heap buffers of exact capacity between canaries, src and dst
 //	                independently 0..15 (+0/16/32/48) bytes behind a 64-byte
 //	                boundary, then dst == src at a third such offset
+//	one array       src and dst disjoint slots of one heap array (gap 0/16/32, either
+//	                order), dst (and src where allowed) open-ended to the array's end
 func (b *bufs) run(what string, op func(dst, src []byte), in, want []byte, dstExtra, srcExtra int) error {
 	n := len(in)
 	if len(want) != n || n > b.n {
@@ -406,6 +408,41 @@ func (b *bufs) run(what string, op func(dst, src []byte), in, want []byte, dstEx
 		}
 		if i, ok := buf.intact(); !ok {
 			return bad(layout, fmt.Sprintf("byte dst[%d] outside dst[:%d] was written", i, n), buf.B)
+		}
+		// one array: src and dst are disjoint slots of ONE buffer (gap 0/16/32
+		// bytes, either order), dst handed over open-ended - and src too where
+		// the operation takes a src longer than it consumes - so that the slice
+		// that starts first extends over the other one. What a call may touch is
+		// what it consumes (n bytes each), not what the slices span: no panic,
+		// result in the dst slot, every other byte of the array unchanged.
+		gap := 16 * int((sel>>24)%3)
+		srcAt, dstAt := 0, n+gap
+		if b.calls%2 == 0 {
+			srcAt, dstAt = n+gap, 0
+		}
+		arr := newOffBuf(2*n+gap+32, int((sel>>28)%64))
+		orig := gen.Fill(sel, len(arr.B))
+		copy(orig[srcAt:], in)
+		copy(arr.B, orig)
+		asrc, adst := arr.B[srcAt:srcAt+n], arr.B[dstAt:]
+		if srcExtra > 0 {
+			asrc = arr.B[srcAt:]
+		}
+		layout = fmt.Sprintf("one array: src = a[%d:%d], dst = a[%d:%d]", srcAt, srcAt+len(asrc), dstAt, dstAt+len(adst))
+		if err := call(layout, adst, asrc); err != nil {
+			return err
+		}
+		wantArr := append([]byte{}, orig...)
+		copy(wantArr[dstAt:], want)
+		if !bytes.Equal(arr.B, wantArr) {
+			i := firstDiff(arr.B, wantArr)
+			if i >= dstAt && i < dstAt+n {
+				return bad(layout, fmt.Sprintf("wrong result (first difference in block %d)", (i-dstAt)/bs), arr.B[dstAt:dstAt+n])
+			}
+			return bad(layout, fmt.Sprintf("array byte %d, outside dst[:%d], was modified", i, n), arr.B[dstAt:dstAt+n])
+		}
+		if i, ok := arr.intact(); !ok {
+			return bad(layout, fmt.Sprintf("byte %d outside the array was written", i), arr.B[dstAt:dstAt+n])
 		}
 	}
 	return nil
